@@ -8,6 +8,7 @@ import (
 	"mosn.io/mosn/pkg/protocol"
 	"mosn.io/mosn/pkg/types"
 	"mosn.io/mosn/pkg/zzverif/verif"
+	"mosn.io/pkg/buffer"
 	"mosn.io/pkg/variable"
 )
 
@@ -89,5 +90,39 @@ func VerifC17_Redirect() {
 	verif.Assert(loc == want, "the redirect Location is not built from the rule's scheme/host/path over the request's own")
 	st, _ := variable.GetString(ctx, types.VarHeaderStatus)
 	verif.Assert(st == strconv.Itoa(code), "the redirect reply does not carry the configured status code")
+	verif.Cover("end")
+}
+
+// VerifC17_DirectResponse: a direct-response route answers the request itself
+// with the configured status and body, exactly once, and nothing is sent
+// upstream - whether or not the request itself carried a body.
+func VerifC17_DirectResponse() {
+	verif.Switches(0)
+	status := []int{200, 404, 503}[verif.Choose("status", 3)]
+	body := []string{"", "x", "hello"}[verif.Choose("body", 3)]
+	zzDirect = &zzMDirect{status: status, body: body}
+	ds, sender, pool, _, ctx := zzMachine(uint32(verif.Choose("route_retries", 2)), verif.Choose("route_retry_on", 2) == 1)
+	pool.scripted = true
+	var reqBody buffer.IoBuffer
+	if verif.Choose("request_body", 2) == 1 {
+		reqBody = buffer.NewIoBufferString("req")
+	}
+	done := false
+	go func() {
+		ds.OnReceive(ctx, protocol.CommonHeader{}, reqBody, nil)
+		done = true
+	}()
+	verif.Settle()
+	zzDirect = nil
+	verif.Assert(done, "a directly answered request did not complete on its own")
+	if !done {
+		return
+	}
+	verif.Assert(pool.calls == 0, "a directly answered request was still sent upstream")
+	verif.Assert(sender.headers == 1, "a direct-response route must answer the client exactly once")
+	st, _ := variable.GetString(ctx, types.VarHeaderStatus)
+	verif.Assert(st == strconv.Itoa(status), "the direct response does not carry the configured status code")
+	verif.Assert(sender.body == body, "the direct response does not carry the configured body")
+	verif.Assert(sender.ends == 1, "the direct response must end the client stream exactly once")
 	verif.Cover("end")
 }
